@@ -387,12 +387,31 @@ def _r027(ck, prog, cfg):
 
 
 # ---------------------------------------------------------------------------------------------
-def _field_store(f, field, owner_suffix="SlotState"):
+def _slot_state(prog):
+    """(state struct path, name of the reply field, name of the waker field) - found through the types, not the names: the state is
+    whatever ResponseSlot keeps inside its Mutex; the waker field is the one whose type mentions Waker, the reply field the other"""
+    a = prog.adts.get("production::response_pool::ResponseSlot")
+    if not a:
+        return None
+    for v in a["variants"]:
+        for fl in v["fields"]:
+            m = re.search(r"Mutex<.*?(production::response_pool::\w+)<", fl["t"])
+            if m and m.group(1) in prog.adts:
+                st = prog.adts[m.group(1)]
+                fs = [x for vv in st["variants"] for x in vv["fields"]]
+                wk = [x["n"] for x in fs if "Waker" in x["t"]]
+                vl = [x["n"] for x in fs if "Waker" not in x["t"] and x["t"].startswith("std::option::Option<")]
+                if len(wk) == 1 and len(vl) == 1:
+                    return m.group(1), vl[0], wk[0]
+    return None
+
+
+def _field_store(f, field, owner):
     """(block, stmt) of every assignment whose left side ends in `.field` of the slot state"""
     out = []
     for b, i, st in f.stmts():
         p_ = st["lhs"].get("p") or []
-        if p_ and isinstance(p_[-1], dict) and p_[-1].get("f") == field and p_[-1].get("o", "").endswith(owner_suffix):
+        if p_ and isinstance(p_[-1], dict) and p_[-1].get("f") == field and p_[-1].get("o", "") == owner:
             out.append((b, i, st))
     return out
 
@@ -406,10 +425,15 @@ def _r028(ck, prog, cfg):
         ck.anchor_lost("R02.8", "ResponseSlot::send / ResponseSlot::reset / ResponseFuture::poll not found")
         return
     send, reset, poll = send[0], reset[0], poll[0]
-    LOCK = r"Mutex::<.*SlotState<.*>>::lock$"
+    ss = _slot_state(prog)
+    if ss is None:
+        ck.anchor_lost("R02.8", "ResponseSlot no longer keeps {reply: Option<T>, waker: Option<Waker>} behind one Mutex")
+        return
+    OWNER, VAL, WAK = ss
+    LOCK = r"Mutex::<.*%s<.*>>::lock$" % re.escape(OWNER)
     # -- send: one critical section; value stored before the wake
     locks = [(b, t) for b, t in send.calls() if is_callee(t, LOCK)]
-    stores = _field_store(send, "value")
+    stores = _field_store(send, VAL, OWNER)
     wakes = [(b, t) for b, t in send.calls() if is_callee(t, r"std::task::Waker::(wake|wake_by_ref)$")]
     ck.check(len(locks) == 1 and len(stores) >= 1, "R02.8", "send:one-critical-section" + _tag(cfg),
              "ResponseSlot::send takes the slot lock %d times / stores the value %d times: storing the reply and taking the waker must be one "
@@ -427,7 +451,7 @@ def _r028(ck, prog, cfg):
             sx = src_of_operand(f, rv["a"])
             rv = sx.rv if sx.kind == "agg" else rv
         return rv["k"] == "agg" and rv.get("n", "").endswith("Option::None")
-    rst = [(b, i, st) for b, i, st in _field_store(reset, "value") if _is_none(reset, st)]
+    rst = [(b, i, st) for b, i, st in _field_store(reset, VAL, OWNER) if _is_none(reset, st)]
     exits = reset.exits()
     ck.check(bool(rst) and all(any(reset.dominates(b, e) for b, _, _ in rst) for e in exits), "R02.8", "reset:empties-value" + _tag(cfg),
              "ResponseSlot::reset does not set `value = None` on every path: a reply that arrived after its requester gave up stays in the "
@@ -437,7 +461,7 @@ def _r028(ck, prog, cfg):
     ck.check(len(plocks) == 1, "R02.8", "poll:one-critical-section" + _tag(cfg),
              "ResponseFuture::poll takes the slot lock %d times: a reply stored between the check for a value and the parking of the waker "
              "would never wake this requester (lost wake-up)" % len(plocks), poll.where(), detail="1 lock")
-    wst = _field_store(poll, "waker")
+    wst = _field_store(poll, WAK, OWNER)
     pend = [(b, i, st) for b, i, st in poll.stmts() if st["rv"]["k"] == "agg" and st["rv"].get("n", "").endswith("Poll::Pending")]
     guard = plocks[0][1]["dest"]["l"] if plocks else None
     gdrops = [b for b in poll.reachable_blocks() if poll.term(b)["k"] == "drop" and poll.term(b).get("pl") == {"l": guard}]
@@ -456,7 +480,7 @@ def _r028(ck, prog, cfg):
         for b, t in poll.calls():
             if is_callee(t, r"Option::<.*>::take$") and poll.dominates(b, rb):
                 r = src_of_operand(poll, t["args"][0], through_calls=TRANSPARENT + (r"DerefMut>::deref_mut$", r"Deref>::deref$"))
-                if "value" in (r.fields or ()):
+                if VAL in (r.fields or ()):
                     took = True
         ck.check(took, "R02.8", "poll:ready-takes-value#%d%s" % (k, _tag(cfg)),
                  "ResponseFuture::poll returns Ready with something other than the value taken out of the slot (a reply left in the slot is "
